@@ -1,4 +1,5 @@
 import Whawty.Model.Config
+import Whawty.Model.Reload
 import Driver.Proto
 namespace Whawty.CfgCmd
 open Whawty Whawty.Proto Whawty.Config
@@ -33,6 +34,15 @@ def predict (cmd : List String) : Option String :=
   | ["cfg.load", basedirEmpty, dflt, sets] => do
     let ss ← if sets == "[]" then pure [] else (sets.splitOn ",").mapM pSet
     pure (sBool (fromConfig { basedirEmpty := ← pBool basedirEmpty, default := ← dflt.toNat?, params := ss }))
+  | ["rl.step", curBase, curDef, newBase, newDef, loadable, dirOk] => do
+    -- one SIGHUP: which configuration is live afterwards (base directory and default id)
+    let cur : Reload.Live := ⟨← pBytes curBase, ← curDef.toNat?, []⟩
+    let nw : Reload.Live := ⟨← pBytes newBase, ← newDef.toNat?, []⟩
+    let lo ← pBool loadable
+    let dk ← pBool dirOk
+    let r := if lo then Reload.Loaded.ok nw dk else Reload.Loaded.bad
+    let l := Reload.reload cur r
+    pure s!"{sBytes l.base} {l.default}"
   | _ => none
 
 end Whawty.CfgCmd
